@@ -500,6 +500,9 @@ def random_scaled_scenario(rng, consts, length):
 # 4. the check
 # ---------------------------------------------------------------------------------------------
 TOGGLES = ["vbus", "disc", "fso", "lso", "busy"]
+# Many JVMs run side by side here: keep each one's GC / JIT thread pools small (the shared runner passes `env` on).
+JVM_LONG = {"JAVA_TOOL_OPTIONS": "-XX:ParallelGCThreads=2 -XX:CICompilerCount=2"}
+JVM_SHORT = {"JAVA_TOOL_OPTIONS": "-XX:ParallelGCThreads=2 -XX:CICompilerCount=2 -XX:TieredStopAtLevel=1"}
 # FSM edges of the reference that need a toggling input to be reachable
 EDGE_NEEDS = {
     "LsFs_Stay_Reset": ("vbus", "fso", "lso"), "LsFs_Suspend_Reset": ("vbus",), "LsFs_Disconnect": ("disc",),
@@ -541,7 +544,7 @@ def _mc_job(label, consts, slack, ls, toggles, leap=0, edges=False):
 def _run_mc(job):
     label, cfg, allow, edges, bounds = job
     res = tlc.model_check(SPEC_DIR, "MCUsb2Reset", cfg, workers=int(os.environ.get("VERIF_TLC_WORKERS", "4")),
-                          timeout=5400, coverage=edges, allow_uncovered=allow)
+                          timeout=5400, coverage=edges, allow_uncovered=allow, env=JVM_LONG)
     if edges:
         covered = {v["action"] for v in res["coverage"].values() if v["generated"] > 0}
         if len(covered) < 30:
@@ -552,7 +555,8 @@ def _run_mc(job):
 def _simulate_part(args):
     seed, num, depth = args
     cfg = tlc.render_cfg(_cfg("MCUsb2Reset_sim.cfg.tmpl"), spec_constants(SCALED, SLACK_SCALED))
-    return tlc.simulate(SPEC_DIR, "MCUsb2ResetSim", cfg, num=num, depth=depth, seed=seed, timeout=1800)
+    return tlc.simulate(SPEC_DIR, "MCUsb2ResetSim", cfg, num=num, depth=depth, seed=seed, timeout=1800,
+                        env=JVM_SHORT)
 
 
 def _scripts_from_tlc(seed, num, depth, parts=4):
@@ -601,7 +605,7 @@ def check_C19(rep):
     if quick:
         mcs = [_mc_job("line", SCALED, SLACK_SCALED, (0, 1, 2), ()),
                _mc_job("edges line+fso", SCALED, SLACK_SCALED, (0, 1, 2), ("fso",), edges=True),
-               _mc_job("leaps (small scale)", SCALED_SMALL, SLACK_SCALED, (0, 1, 2, 3), (), leap=15)]
+               _mc_job("leaps (small scale)", SCALED_SMALL, SLACK_SCALED, (0, 1, 2), (), leap=14)]
     else:
         mcs = [_mc_job("line4", SCALED, SLACK_SCALED, (0, 1, 2, 3), ()),
                _mc_job("restrictions", SCALED, SLACK_SCALED, (0, 1, 2), ("fso", "lso")),
@@ -612,7 +616,6 @@ def check_C19(rep):
                _mc_job("leaps (small scale)", SCALED_SMALL, SLACK_SCALED, (0, 1, 2, 3), ("fso", "vbus"), leap=15),
                _mc_job("leaps", SCALED, SLACK_SCALED, (0, 1, 2), (), leap=31)]
     pool = ThreadPoolExecutor(max_workers=3)
-    mc_futs = [pool.submit(_run_mc, j) for j in mcs]
 
     # ---- 2./3. stimuli, played on the real gateware in worker processes.  The directed scenarios, witnesses and
     # random walks start at once; the TLC-simulated scripts join as soon as TLC has produced them.
@@ -652,6 +655,9 @@ def check_C19(rep):
 
     scripts = _scripts_from_tlc(rep.seed, 32 if quick else 240, 240 if quick else 400, parts=4 if quick else 6)
     stamps["scripts_ready"] = round(time.time() - t_start, 1)
+    # the exhaustive runs start now (TLC's simulator is on the critical path and was given the machine first);
+    # they proceed in parallel with the replay and the trace validation
+    mc_futs = [pool.submit(_run_mc, j) for j in mcs]
     budget = 450_000 if quick else 2_500_000          # TLC scripts are cut at a cycle budget at the real constants
     for s_, m_ in metas("tlc-script", scripts[:4] if quick else scripts[:110]):
         add("real", "seq", None, [(s_, dict(m_, budget=budget))])
@@ -705,7 +711,8 @@ def check_C19(rep):
 
             calls = _Calls()
             validate_group(calls, SPEC_DIR, "Usb2ResetTrace", cfg, items, classify=classify,
-                           what_prefix="[%s] " % group, chunk=10 ** 9, timeout=3600, env={"INFO_FILE": info_file})
+                           what_prefix="[%s] " % group, chunk=10 ** 9, timeout=3600,
+                           env=dict(JVM_SHORT, INFO_FILE=info_file))
             return calls.calls, infos()
 
         names = sorted(groups)
